@@ -197,6 +197,8 @@ structure DSt where
   counter is taken from the implementation from then on (the handshaker and address counts are echoed anyway) -/
   looseDials : Bool := false
   parked : Parked := none
+  /-- the extended-message id each scripted peer assigned to `ut_metadata` in its (first) extension handshake -/
+  metaIds : List (Nat × Nat) := []
 
 def renderObs (s : St) (verdict : String) (outs : List Out) (impl : List (String × String))
     (dlTok : String) (ntrk : Nat := 0) (anns : List String := []) (noListen : Bool := false) (extraCips : List String := []) : String :=
@@ -570,7 +572,27 @@ def stepDriver (d : DSt) (op implObs : String) : DSt × String × List String :=
           [s!"C04 stop-command-did-not-stop st={implSt}"] else []) ++
         (if vp && (implSt = "Downloading" || implSt = "Seeding") then [s!"C04 verification-request-did-not-end-stopped st={implSt}"] else [])
       let sws := if toks.headD "" = "waitstop" then false else sws
-      ({ s := some st2, parked := parked, implDials := implDials, knownPeers := known, trk := trk, startWhileStopping := sws, verifyPending := vp, noListen := noListen, looseDials := looseDials },
+      -- C11: an extension message goes out under the id the RECEIVER assigned to that extension (BEP 10)
+      let metaIds :=
+        if toks.headD "" = "msg" && kvStr toks "t" = "exths" && !(d.metaIds.any (·.1 = kvNat toks "p")) then
+          match ((kvStr toks "m").splitOn "+").find? (·.startsWith "ut_metadata:") with
+          | some e => d.metaIds ++ [(kvNat toks "p", ((e.drop 12).toString.toNat?).getD 0)]
+          | none => d.metaIds
+        else d.metaIds
+      let extViol := impl.flatMap fun (k, v) =>
+        if k.startsWith "p" && (k.drop 1).toString.toNat?.isSome then
+          let pk := ((k.drop 1).toString.toNat?).getD 0
+          (commaList v).filterMap fun msg =>
+            if msg.startsWith "extmeta:" then
+              let got := ((msg.splitOn ":").getD 1 "").toNat?.getD 0
+              match metaIds.find? (·.1 = pk) with
+              | some (_, want) => if got ≠ want then
+                  some s!"C11 extension-message-under-wrong-extended-id peer={pk} got={got} want={want} msg={msg.replace " " "_"}" else none
+              | none => none
+            else none
+        else []
+      let annViol := annViol ++ extViol ++ (extViol.map fun v => v.replace "C11 extension-message" "C13 extension-message")
+      ({ s := some st2, parked := parked, implDials := implDials, knownPeers := known, trk := trk, startWhileStopping := sws, verifyPending := vp, noListen := noListen, looseDials := looseDials, metaIds := metaIds },
         renderObs st2 r.verdict outs1 impl dlTok trk.ntrk anns noListen
           -- the IPs of pending outgoing handshakes to the hold sink (not modelled) count as connected while the
           -- torrent runs; a stopped torrent has none
